@@ -1042,13 +1042,17 @@ int tsnpd_write_ts(const char *path, const tsnpd_net *gt, const tsnpd_spell *s)
 	char blk[5][512];
 	int nb = 0, order[5];
 
-	tsnpd_wline(&w, 'k', "[Number of Ports] %d", n);
+	tsnpd_wline(&w, 'k', s->intzero ? "[Number of Ports] 0%d" :
+		"[Number of Ports] %d", n);
 	if (n == 2)
 	    snprintf(blk[nb++], 512, "[Two-Port Data Order] %s",
 		    s->order ? "21_12" : "12_21");
-	snprintf(blk[nb++], 512, "[Number of Frequencies] %d", gt->nfreq);
+	snprintf(blk[nb++], 512, s->intzero ? "[Number of Frequencies] 0%d" :
+		"[Number of Frequencies] %d", gt->nfreq);
 	if (s->noise)
-	    snprintf(blk[nb++], 512, "[Number of Noise Frequencies] 2");
+	    snprintf(blk[nb++], 512, s->intzero ?
+		    "[Number of Noise Frequencies] 02" :
+		    "[Number of Noise Frequencies] 2");
 	if (!equal || s->refstyle) {
 	    char *b = blk[nb++];
 	    size_t k = (size_t)snprintf(b, 512, "[Reference]");
@@ -1224,8 +1228,10 @@ int tsnpd_write_npd(const char *path, const tsnpd_net *gt,
 	    tsnpd_wline(&w, 'd', i % 2 ? "# a comment #:ports 9" : "#");
 	switch (perm[i]) {
 	case 0: tsnpd_wline(&w, 'd', "#:version 1.0"); break;
-	case 1: tsnpd_wline(&w, 'd', "#:ports %d", n); break;
-	case 2: tsnpd_wline(&w, 'd', "#:frequencies %d", gt->nfreq); break;
+	case 1: tsnpd_wline(&w, 'd', s->intzero ? "#:ports 0%d" : "#:ports %d",
+			n); break;
+	case 2: tsnpd_wline(&w, 'd', s->intzero ? "#:frequencies 0%d" :
+			"#:frequencies %d", gt->nfreq); break;
 	case 3: tsnpd_wline(&w, 'd', "#:parameters %s", name); break;
 	case 4:
 	    if (gt->fz0) {
